@@ -10,7 +10,8 @@ DEC = l1.DEC
 def jtable(name):
     d = json.load(open(os.path.join(VERIF, 'tables', name)))
     d.pop('_comment', None)
-    return d
+    from ..absint import std_name
+    return dict((std_name(k), v) for k, v in d.items())
 
 
 def is_decode_root(i):
